@@ -95,6 +95,26 @@ def crossed(draw):
                 prune=games.coin(draw))
 
 
+def half_millionth_cases():
+    """Planted: a Player 2 state choosing between two lotteries whose winning chances differ by less than 1e-6
+    and one of which is a 7-decimal value ending in 5 (0.3000005 ...): how exactly such a value is rounded to 6
+    digits decides which actions count as reachability-minimal; the reported reachability strategy and the
+    'rewards under minimal reachability' output must be based on the same set."""
+    for p2 in (0.3000005, 0.1000005, 0.7000015, 0.5000025, 0.2500005, 0.9000035):
+        for d in (-3e-7, 3e-7, -6e-7):
+            for costs in ((10, 4), (4, 10)):
+                for order in (0, 1):
+                    p1 = p2 + d
+                    acts = [("a", 3), ("b", 4)]
+                    if order:
+                        acts = acts[::-1]
+                    g = dict(rewards=[0, 0, 0, costs[0], costs[1]], players=[P2, PR, PR, PR, PR],
+                             transition_list=[acts, [(1, 1)], [(1, 2)], [(p1, 1), (1 - p1, 2)], [(p2, 1), (1 - p2, 2)]],
+                             final_states=[1])
+                    for prune in (True, False):
+                        yield dict(game=g, prune=prune)
+
+
 def slow_cases():
     for g in games.slow_choice_games():
         for prune in (True, False):
@@ -102,7 +122,9 @@ def slow_cases():
 
 
 def phases(tier):
-    return [Phase("slow-rewarded-loops", enum=slow_cases, note="values that need 10^3..10^5 sweeps"),Phase("crossed-objectives", strategy=crossed, examples=(600, 20000)),
+    return [Phase("half-millionth-reach-values", enum=half_millionth_cases,
+                  note="reach probabilities that sit on a 6-digit rounding boundary, siblings less than 1e-6 away"),
+            Phase("slow-rewarded-loops", enum=slow_cases, note="values that need 10^3..10^5 sweeps"),Phase("crossed-objectives", strategy=crossed, examples=(600, 20000)),
             Phase("stopping-games-generic-rewards", strategy=lambda: cases(9 if tier == "quick" else 12),
                   examples=(2400, 70000))]
 
